@@ -102,6 +102,10 @@ Record qgst := {
 
 Definition qm (g : qgst) : N := qcap g + 1.
 
+(* location bases and access sites as in model/OverflowQueue.v (the events are compared with the
+   real queue run under injected stale values) *)
+Definition B_WP : N := 0.  Definition B_RP : N := 1.  Definition B_SLOT : N := 2.
+
 Definition next_choice (g : qgst) : N * list N :=
   match qoracle g with [] => (0, []) | k :: t => (k, t) end.
 
@@ -138,14 +142,15 @@ Definition spec_hit (g : qgst) (w : N) : bool :=
   end.
 
 (* consumer: load of write_position (sites 41, 44) *)
-Definition pop_load_wp (Q : qords) (g : qgst) (l : qlst) (r : N) : qgst * qlst * list ev :=
+Definition pop_load_wp (Q : qords) (site : N) (g : qgst) (l : qlst) (r : N) : qgst * qlst * list ev :=
   let '(k, orc) := next_choice g in
   let w := stale (qwp g) (seenW l) k in
   let aw := if is_acq (q_pop_load_wp Q) && is_rel (q_push_store_wp Q) then N.max (acqW l) w else acqW l in
+  let e := EAcc site B_WP 0 KLoad (q_pop_load_wp Q) (q_pop_load_wp Q) w 0 true in
   if N.eqb r w
-  then (set_oracle g orc, set_q l (qprog l) QIdle (seenR l) w aw (acqR l), [ERet 0])
+  then (set_oracle g orc, set_q l (qprog l) QIdle (seenR l) w aw (acqR l), [e; ERet 0])
   else (upd_q g (qwp g) (qrp g) (qslots g) orc (race_used g) (race_spec g) (qovf g) (Some r) (cum g) (qpushed g) (qremoved g),
-        set_q l (qprog l) (QPopRead r) (seenR l) w aw (acqR l), []).
+        set_q l (qprog l) (QPopRead r) (seenR l) w aw (acqR l), [e]).
 
 Definition qstep (Q : qords) (t : nat) (g : qgst) (l : qlst) : option (qgst * qlst * list ev) :=
   match qat l with
@@ -153,7 +158,8 @@ Definition qstep (Q : qords) (t : nat) (g : qgst) (l : qlst) : option (qgst * ql
     match qprog l, t with
     | QPush v :: p, O%nat =>
       (* site 30: load of the producer's own cursor *)
-      Some (g, set_q l p (QPushLoadRp v (qwp g)) (seenR l) (seenW l) (acqW l) (acqR l), [])
+      Some (g, set_q l p (QPushLoadRp v (qwp g)) (seenR l) (seenW l) (acqW l) (acqR l),
+            [EAcc 30 B_WP 0 KLoad Acquire Acquire (qwp g) 0 true])
     | QPop :: p, S O%nat =>
       (* site 40: load of read_position *)
       let '(k, orc) := next_choice g in
@@ -161,28 +167,33 @@ Definition qstep (Q : qords) (t : nat) (g : qgst) (l : qlst) : option (qgst * ql
       let sync := is_acq (q_pop_load_rp Q) && is_rel (q_push_cas Q) in
       let sw := if sync then N.max (seenW l) (pv g r) else seenW l in
       let aw := if sync then N.max (acqW l) (pv g r) else acqW l in
-      Some (set_oracle g orc, set_q l p (QPopLoadWp r) r sw aw (acqR l), [])
+      Some (set_oracle g orc, set_q l p (QPopLoadWp r) r sw aw (acqR l),
+            [EAcc 40 B_RP 0 KLoad (q_pop_load_rp Q) (q_pop_load_rp Q) r 0 true])
     | _, _ => None
     end
   | QPushLoadRp v w =>
     let '(k, orc) := next_choice g in
     let r := stale (qrp g) (seenR l) k in
     let ar := if is_acq (q_push_load_rp Q) then N.max (acqR l) r else acqR l in
-    Some (set_oracle g orc, set_q l (qprog l) (QPushWrite v w r) r (seenW l) (acqW l) ar, [])
+    Some (set_oracle g orc, set_q l (qprog l) (QPushWrite v w r) r (seenW l) (acqW l) ar,
+          [EAcc 31 B_RP 0 KLoad (q_push_load_rp Q) (q_push_load_rp Q) r 0 true])
   | QPushWrite v w r =>
     let i := N.modulo w (qm g) in
     Some (upd_q g (qwp g) (qrp g) (updN (qslots g) i v) (qoracle g)
                 (race_used g || write_racy Q g l w) (race_spec g || spec_hit g w)
                 (qovf g) (cspec g) (cum g) (qpushed g) (qremoved g),
-          set_q l (qprog l) (QPushStore v w r) (seenR l) (seenW l) (acqW l) (acqR l), [])
+          set_q l (qprog l) (QPushStore v w r) (seenR l) (seenW l) (acqW l) (acqR l),
+          [EAcc 32 B_SLOT i KCell NotAtomic NotAtomic 0 0 true])
   | QPushStore v w r =>
     if N.eqb w (r + qcap g)
     then Some (upd_q g (w + 1) (qrp g) (qslots g) (qoracle g) (race_used g) (race_spec g) true (cspec g) (cum g)
                      (qpushed g ++ [v]) (qremoved g),
-               set_q l (qprog l) (QPushCas w r) (seenR l) (seenW l) (acqW l) (acqR l), [])
+               set_q l (qprog l) (QPushCas w r) (seenR l) (seenW l) (acqW l) (acqR l),
+               [EAcc 33 B_WP 0 KStore (q_push_store_wp Q) (q_push_store_wp Q) 0 (w + 1) true])
     else Some (upd_q g (w + 1) (qrp g) (qslots g) (qoracle g) (race_used g) (race_spec g) (qovf g) (cspec g) (cum g)
                      (qpushed g ++ [v]) (qremoved g),
-               set_q l (qprog l) QIdle (seenR l) (seenW l) (acqW l) (acqR l), [ERet 0])
+               set_q l (qprog l) QIdle (seenR l) (seenW l) (acqW l) (acqR l),
+               [EAcc 33 B_WP 0 KStore (q_push_store_wp Q) (q_push_store_wp Q) 0 (w + 1) true; ERet 0])
   | QPushCas w r =>
     if N.eqb (qrp g) r
     then let x := nthN (qslots g) (N.modulo r (qm g)) 0 in
@@ -190,31 +201,36 @@ Definition qstep (Q : qords) (t : nat) (g : qgst) (l : qlst) : option (qgst * ql
          let ar := if is_acq (q_push_cas Q) then N.max (acqR l) (r + 1) else acqR l in
          Some (upd_q g (qwp g) (r + 1) (qslots g) (qoracle g) (race_used g) (race_spec g) false (cspec g)
                      (cum g ++ [N.max (pv g r) carried]) (qpushed g) (qremoved g ++ [(x, false)]),
-               set_q l (qprog l) (QPushReadOld r) (r + 1) (seenW l) (acqW l) ar, [])
+               set_q l (qprog l) (QPushReadOld r) (r + 1) (seenW l) (acqW l) ar,
+               [EAcc 34 B_RP 0 KCas (q_push_cas Q) Relaxed r (r + 1) true])
     else let '(k, orc) := next_choice g in
          let r' := stale (qrp g) (N.max (seenR l) (r + 1)) k in
          Some (upd_q g (qwp g) (qrp g) (qslots g) orc (race_used g) (race_spec g) false (cspec g) (cum g) (qpushed g) (qremoved g),
-               set_q l (qprog l) QIdle r' (seenW l) (acqW l) (acqR l), [ERet 0])
+               set_q l (qprog l) QIdle r' (seenW l) (acqW l) (acqR l),
+               [EAcc 34 B_RP 0 KCas (q_push_cas Q) Relaxed r' (r + 1) false; ERet 0])
   | QPushReadOld r =>
     Some (g, set_q l (qprog l) QIdle (seenR l) (seenW l) (acqW l) (acqR l),
-          [ERet (nthN (qslots g) (N.modulo r (qm g)) 0 + 1)])
-  | QPopLoadWp r => Some (pop_load_wp Q g l r)
+          [EAcc 35 B_SLOT (N.modulo r (qm g)) KCell NotAtomic NotAtomic 0 0 true; ERet (nthN (qslots g) (N.modulo r (qm g)) 0 + 1)])
+  | QPopLoadWp r => Some (pop_load_wp Q 41 g l r)
   | QPopRead r =>
     Some (g, set_q l (qprog l) (QPopCas r (nthN (qslots g) (N.modulo r (qm g)) 0) (N.ltb r (acqW l)))
-                   (seenR l) (seenW l) (acqW l) (acqR l), [])
+                   (seenR l) (seenW l) (acqW l) (acqR l),
+          [EAcc 42 B_SLOT (N.modulo r (qm g)) KCell NotAtomic NotAtomic 0 0 true])
   | QPopCas r v fresh =>
     if N.eqb (qrp g) r
     then Some (upd_q g (qwp g) (r + 1) (qslots g) (qoracle g) (race_used g || negb fresh) (race_spec g) (qovf g) None
                      (cum g ++ [pv g r]) (qpushed g) (qremoved g ++ [(v, true)]),
-               set_q l (qprog l) QIdle (r + 1) (seenW l) (acqW l) (acqR l), [ERet (v + 1)])
+               set_q l (qprog l) QIdle (r + 1) (seenW l) (acqW l) (acqR l),
+               [EAcc 43 B_RP 0 KCas (q_pop_cas Q) (q_pop_cas_fail Q) r (r + 1) true; ERet (v + 1)])
     else let '(k, orc) := next_choice g in
          let r' := stale (qrp g) (N.max (seenR l) (r + 1)) k in
          let sync := is_acq (q_pop_cas_fail Q) && is_rel (q_push_cas Q) in
          let sw := if sync then N.max (seenW l) (pv g r') else seenW l in
          let aw := if sync then N.max (acqW l) (pv g r') else acqW l in
          Some (upd_q g (qwp g) (qrp g) (qslots g) orc (race_used g) (race_spec g) (qovf g) None (cum g) (qpushed g) (qremoved g),
-               set_q l (qprog l) (QPopRecheck r') r' sw aw (acqR l), [])
-  | QPopRecheck r => Some (pop_load_wp Q g l r)
+               set_q l (qprog l) (QPopRecheck r') r' sw aw (acqR l),
+               [EAcc 43 B_RP 0 KCas (q_pop_cas Q) (q_pop_cas_fail Q) r' (r + 1) false])
+  | QPopRecheck r => Some (pop_load_wp Q 44 g l r)
   end.
 
 Definition qg_init (c : N) (orc : list N) : qgst :=
